@@ -153,3 +153,21 @@ Theorem C19_utils_py_runs_come_back_in_order :
     parallelize func data par pbar = map func data /\ parallelize func data par pbar = parallelize func data par' pbar'.
 Proof. intros. split; [apply gen_parallelize_is_ordered_map | apply gen_parallelize_flags_irrelevant]. Qed.
 Print Assumptions C19_utils_py_runs_come_back_in_order.
+
+(* ---- the SOURCE of the loss classes (phasegen/norms.py, pinned on every run by translate/norms2coq.py into gen/NormsGen.v): for L1Norm,
+   L2Norm and LInfNorm (one-dimensional operands of equal length) the loss is non-negative, exactly zero at a perfect fit and strictly
+   positive anywhere else, and symmetric: a run that reaches the observation exactly has the minimum possible loss and is kept by every
+   merge; no other modelled vector reaches loss zero ---- *)
+From Coq Require Import Reals.
+From PG Require Import gen.NormsGen proofs.GenNormsEquiv.
+Theorem C19_norms_py_loss_zero_exactly_at_perfect_fit :
+  forall (p : ord) (a b : list R),
+    (0 <= LNorm_compute p a b)%R /\ LNorm_compute p a a = 0%R /\
+    (length a = length b -> (LNorm_compute p a b = 0%R <-> a = b)) /\
+    (length a = length b -> a <> b -> (0 < LNorm_compute p a b)%R) /\
+    LNorm_compute p a b = LNorm_compute p b a.
+Proof.
+  intros p a b. split; [apply compute_nonneg | split; [apply compute_perfect_fit | split; [| split; [apply compute_positive_off_fit | apply compute_symmetric]]]].
+  intros HL. split; [apply compute_zero_only_at_perfect_fit; exact HL | intros ->; apply compute_perfect_fit].
+Qed.
+Print Assumptions C19_norms_py_loss_zero_exactly_at_perfect_fit.
